@@ -176,7 +176,7 @@ def _check_final(w: World, scn: Dict[str, Any], obs: CS.Obs, final: str, last: O
             w.violate('C09.outcome', f'send raised {o[1]!r} instead of returning the last response', **ctx)
             return
         got = CS._safe_json(o[1])
-        if not R.json_equal(got, doc):
+        if not R.same_document(got, doc):
             w.violate('C09.outcome', f'send returned {json.dumps(got)[:120]}, the last reply was {last["text"][:120]}',
                       **ctx)
         return
@@ -190,6 +190,9 @@ def _check_final(w: World, scn: Dict[str, Any], obs: CS.Obs, final: str, last: O
         return
     want = [x['result'] for x in objs]
     got_v = list(o[1]) if isinstance(o[1], tuple) else [o[1]]
+    if final == 'id_mismatch':
+        # non-strict mode accepted a reply with a foreign id: which position it takes is an open zone (F.2)
+        want, got_v = sorted(want, key=repr), sorted(got_v, key=repr)
     if o[0] != 'value' or not R.json_equal(got_v, want):
         w.violate('C09.outcome', f'call returned {o[1]!r}, the last reply carries {want!r}', **ctx)
 
